@@ -61,18 +61,18 @@ theorem pointsFrom_length (q : String) : ∀ (j : Nat) (ids : List String), (poi
   | j, _ :: is => by simp [pointsFrom, pointsFrom_length q (j + 1) is]
 
 /-- `findIP`'s loop over the entries of the list: one point `q:<j>#<id>` per entry, in order -/
-theorem findIP_go (T q : String) (fs : List FieldSpec) (aOf : String → List (String × J)) :
+theorem findIP_go (sk : Bool) (T q : String) (fs : List FieldSpec) (aOf : String → List (String × J)) :
     ∀ (ids : List String) (j : Nat) (acc : List (List String)),
-    findIP.go [] [] (QLown T q fs) true (ids.map (elemA aOf)) j acc = .ok (some (acc ++ pointsFrom q j ids))
-  | [], j, acc => by simp [findIP.go, pointsFrom]
+    findIPW.go sk [] [] (QLown T q fs) true (ids.map (elemA aOf)) j acc = .ok (some (acc ++ pointsFrom q j ids))
+  | [], j, acc => by simp [findIPW.go, pointsFrom]
   | i :: is, j, acc => by
     simp only [List.map_cons, elemA]
-    rw [findIP.go]
-    simp only [↓reduceIte, extractID, J.lookup, fmtID, bind, Except.bind, findIP, List.nil_append]
+    rw [findIPW.go]
+    simp only [↓reduceIte, extractID, J.lookup, fmtID, bind, Except.bind, findIPW, List.nil_append]
     have hdn : displayName (QLown T q fs) = q := by
       simp [displayName, QLown]
     rw [hdn]
-    have := findIP_go T q fs aOf is (j + 1) (acc ++ [[pointL q j i]])
+    have := findIP_go sk T q fs aOf is (j + 1) (acc ++ [[pointL q j i]])
     rw [pointL] at this
     rw [this]
     simp [pointsFrom, pointL]
@@ -81,11 +81,11 @@ theorem findIP_q (T q : String) (fs : List FieldSpec) (ids : List String) (aOf :
     findIP [q] [QLown T q fs] (respA q ids aOf) [] = .ok (pointsFrom q 0 ids) := by
   have hfs : findSelection q [QLown T q fs] = some (QLown T q fs) := by
     exact findSelection_head q q [] [] _ [] _ [] q (by simp)
-  rw [findIP, hfs]
+  rw [findIP, findIPW, hfs]
   have hl : J.lookup q (respA q ids aOf) = some (.arr (ids.map (elemA aOf))) := by simp [respA, J.lookup]
   rw [hl]
   have hty : (selType (QLown T q fs)).isList = true := rfl
-  simp only [hty, ↓reduceIte, List.isEmpty_nil, findIP_go T q fs aOf ids 0 [], bind, Except.bind, List.nil_append,
+  simp only [hty, ↓reduceIte, List.isEmpty_nil, findIP_go _ T q fs aOf ids 0 [], bind, Except.bind, List.nil_append,
     Option.getD_some]
 
 /-- the child step of the plan when `B` owns the fields `bs ≠ []`, and the follow-up requests -/
